@@ -1,52 +1,47 @@
 (* C04 - A delete removes exactly the matched nodes, whatever their number or
-   position.  Statements only; proofs in Proofs/C04delete.v.
+   position.  Statements only; proofs in Proofs/C04delete.v, Proofs/C04plan.v.
 
    Model: Mutate.delete_nodes = Processor._delete_nodes (processor.py, after
-   fix 42610a8) run on the coordinates the read side gathered.
+   fixes 42610a8 and 17f9ea8) run on the coordinates the read side gathered.
    Spec:  C04.delete_spec = the document with exactly the designated children
    removed (everything else untouched, relative order kept by construction). *)
 From Coq Require Import List ZArith NArith Bool String.
-From YP Require Import Outcome PyStr PyVal Doc Searches Mutate C04spec C04lists C04delete C04order C04merge.
+From YP Require Import Outcome PyStr PyVal Doc Searches Mutate C04spec C04lists C04delete C04plan C04merge.
 Import ListNotations.
 Open Scope string_scope.
 
-(* Every gathered coordinate, processed without duplicate and without disorder
-   (true of every single path without Collectors, see docs/C04.md), is removed -
-   all of them, several per sequence, empty containers, negative indexes - and
-   nothing else changes; no exception is raised. *)
-Theorem C04_delete_exact_partial : forall d cs,
+(* THE FULL THEOREM.  Whatever was gathered - Collector results nested to any
+   depth, the same node any number of times, the nodes of one sequence in any
+   order, negative indexes, empty containers, a node together with its
+   ancestor - if every gathered coordinate locates a node of the document
+   (del_all_located: its parent is a container object of the document and its
+   parentref names a child of it; what the read side owes, C02), then exactly
+   the located nodes are removed, nothing else changes, no exception is raised.
+   (Before fix 17f9ea8 this held only under the guard no_dup_no_disorder: known
+   finding F15.) *)
+Theorem C04_delete_exact : forall d cs,
   wf_doc d ->
-  no_dup_no_disorder d (map pc_pair (del_order cs)) = true ->
-  delete_nodes cs d = MDone (delete_spec d (map pc_pair (del_order cs))).
+  del_all_located d (map pc_pair (leaf_coords cs)) = true ->
+  delete_nodes cs d = MDone (delete_spec d (map pc_pair (leaf_coords cs))).
 Proof. exact delete_exact. Qed.
-Print Assumptions C04_delete_exact_partial.
-
-(* The guard is implied by what the read side promises for one path: in gather
-   order the coordinates locate distinct nodes, in document order within each
-   parent (C04spec.doc_ordered, computable; "results come in document order,
-   each once" is the read-side theorem that discharges it). *)
-Theorem C04_guard_from_document_order : forall d ps,
-  wf_doc d -> doc_ordered d ps = true -> no_dup_no_disorder d (rev ps) = true.
-Proof. exact ordered_guard. Qed.
-Print Assumptions C04_guard_from_document_order.
-
-(* Hence: whatever was gathered (Collector nesting included), if the
-   coordinates in gather order locate distinct nodes in document order within
-   each parent, exactly those nodes are removed and nothing else changes. *)
-Theorem C04_delete_exact_ordered : forall d cs,
-  wf_doc d ->
-  doc_ordered d (rev (map pc_pair (del_order cs))) = true ->
-  delete_nodes cs d = MDone (delete_spec d (rev (map pc_pair (del_order cs)))).
-Proof. exact delete_exact_ordered. Qed.
-Print Assumptions C04_delete_exact_ordered.
+Print Assumptions C04_delete_exact.
 
 (* ... in particular for the plain coordinates of a single path without Collectors. *)
 Theorem C04_delete_exact_single_path : forall d ps,
   wf_doc d ->
-  doc_ordered d (map pc_pair ps) = true ->
+  del_all_located d (map pc_pair ps) = true ->
   delete_nodes (map (fun p => CNode p false) ps) d = MDone (delete_spec d (map pc_pair ps)).
 Proof. exact delete_exact_plain. Qed.
 Print Assumptions C04_delete_exact_single_path.
+
+(* How the repaired code gets there: the order in which it processes the places
+   (every place once, list elements by descending position) always satisfies
+   the invariant of the deletion loop, and names the same nodes. *)
+Theorem C04_plan_ordered : forall d ps,
+  wf_doc d -> del_all_located d (map pc_pair ps) = true ->
+  ordered_from d [] (map pc_pair (map snd (plan_entries d ps))) = true.
+Proof. exact plan_ordered. Qed.
+Print Assumptions C04_plan_ordered.
 
 (* The dict branch of _delete_nodes first tests for a YAML-merge-key removal
    (parentref is the anchor name of a mapping AND the parent has merge keys);
@@ -63,19 +58,24 @@ Theorem C04_merge_test_not_passed : forall mg ps d,
 Proof. exact run_del_mg_no_hit. Qed.
 Print Assumptions C04_merge_test_not_passed.
 
-(* Deleting the document root is refused with a YAML Path error and changes
-   nothing (the root coordinate is the one the loop meets first). *)
-Theorem C04_root_refused : forall cs r rest d,
-  del_order cs = mkpc None r :: rest ->
+(* THE FULL ROOT CLAUSE.  Deleting the document root is refused with a YAML Path
+   error and changes nothing - wherever the root coordinate stands among the
+   gathered ones, however deep in Collector results, and whatever else was
+   gathered (since fix 1c243db the refusal comes before anything is deleted;
+   before, this held only when the root was the coordinate the loop met first:
+   known finding F15b). *)
+Theorem C04_root_refused : forall cs d,
+  In None (map pc_parent (leaf_coords cs)) ->
   delete_nodes cs d = Failed d (YPE NoDocument).
 Proof. exact root_refused. Qed.
 Print Assumptions C04_root_refused.
 
-(* ...and whatever else was gathered, a root coordinate never lets a delete complete. *)
-Theorem C04_root_never_deleted : forall ps d,
-  In None (map pc_parent ps) -> exists d' e, run_del ps d = Failed d' e.
-Proof. exact run_del_root_fails. Qed.
-Print Assumptions C04_root_never_deleted.
+(* ... also in a document whose mappings carry merge keys *)
+Theorem C04_root_refused_merge_keys : forall mg cs d,
+  In None (map pc_parent (leaf_coords cs)) ->
+  delete_nodes_mg mg cs d = Failed d (YPE NoDocument).
+Proof. exact root_refused_mg. Qed.
+Print Assumptions C04_root_refused_merge_keys.
 
 (* ---- concrete documents ---- *)
 Definition pl (o : N) : info := mkinfo o None false None.
@@ -91,31 +91,32 @@ Definition doc1 : node :=
 Definition plain (o : N) (r : pyval) : coord := CNode (mkpc (Some o) r) false.
 
 (* non-vacuity: a[0], a[1] (an empty list), a[2] (equal to a[0]) and a[-1] all at once *)
-Example C04_guard_nonvacuous :
+Example C04_located_nonvacuous :
   wf_docb doc1 = true /\
-  no_dup_no_disorder doc1 (map pc_pair (del_order [plain 2 (PInt 0); plain 2 (PInt 1); plain 2 (PInt 2); plain 2 (PInt (-1))])) = true /\
+  del_all_located doc1 (map pc_pair (leaf_coords [plain 2 (PInt 0); plain 2 (PInt 1); plain 2 (PInt 2); plain 2 (PInt (-1))])) = true /\
   delete_nodes [plain 2 (PInt 0); plain 2 (PInt 1); plain 2 (PInt 2); plain 2 (PInt (-1))] doc1
   = MDone (NMap (ct 0) [ (sk 1 "a", NSeq (ct 2) []); (sk 6 "b", iv 7 5) ]).
 Proof. vm_compute. repeat split. Qed.
 
 (* a nested match: a[1] and the whole of a *)
 Example C04_nested_nonvacuous :
-  no_dup_no_disorder doc1 (map pc_pair (del_order [plain 0 (PStr "a"); plain 2 (PInt 1)])) = true /\
+  del_all_located doc1 (map pc_pair (leaf_coords [plain 0 (PStr "a"); plain 2 (PInt 1)])) = true /\
   delete_nodes [plain 0 (PStr "a"); plain 2 (PInt 1)] doc1 = MDone (NMap (ct 0) [ (sk 6 "b", iv 7 5) ]).
 Proof. vm_compute. repeat split. Qed.
 
-(* non-vacuity of the document-order hypothesis: a.* style gather a[0], a[1], a[2], a[3] and b, in document order;
-   a[-1] alone in its parent; and it is NOT satisfied by a duplicate or by a reversed pair *)
-Example C04_ordered_nonvacuous :
-  doc_ordered doc1 [(Some 2%N, PInt 0); (Some 2%N, PInt 1); (Some 2%N, PInt 2); (Some 2%N, PInt 3); (Some 0%N, PStr "b")] = true /\
-  doc_ordered doc1 [(Some 0%N, PStr "a"); (Some 2%N, PInt (-1))] = true /\
-  doc_ordered doc1 [(Some 2%N, PInt 0); (Some 2%N, PInt 0)] = false /\
-  doc_ordered doc1 [(Some 2%N, PInt 2); (Some 2%N, PInt 0)] = false /\
-  doc_ordered doc1 [(Some 2%N, PInt (-2)); (Some 2%N, PInt 3)] = false /\
-  delete_nodes (map (fun p => CNode p false)
-                  [mkpc (Some 2%N) (PInt 0); mkpc (Some 2%N) (PInt 1); mkpc (Some 2%N) (PInt 2); mkpc (Some 2%N) (PInt 3);
-                   mkpc (Some 0%N) (PStr "b")]) doc1
-  = MDone (NMap (ct 0) [ (sk 1 "a", NSeq (ct 2) []) ]).
+(* the hypothesis is satisfied by what used to be outside the guard: a duplicate, a reversed pair, a negative
+   index before a positive one, a Collector nested in a Collector; it fails only for a coordinate that names
+   no child (index 9, key zz, the root) *)
+Example C04_located_any_order :
+  del_all_located doc1 [(Some 2%N, PInt 0); (Some 2%N, PInt 0)] = true /\
+  del_all_located doc1 [(Some 2%N, PInt 2); (Some 2%N, PInt 0)] = true /\
+  del_all_located doc1 [(Some 2%N, PInt (-2)); (Some 2%N, PInt 3); (Some 0%N, PStr "b")] = true /\
+  del_all_located doc1 [(Some 2%N, PInt 9)] = false /\
+  del_all_located doc1 [(Some 0%N, PStr "zz")] = false /\
+  del_all_located doc1 [(None, PNone)] = false /\
+  delete_nodes [CList [CList [plain 2 (PInt (-2)); plain 2 (PInt 3)] (mkpc None PNone) false; plain 2 (PInt 2);
+                       plain 0 (PStr "b"); plain 2 (PInt 3)] (mkpc None PNone) false] doc1
+  = MDone (NMap (ct 0) [ (sk 1 "a", NSeq (ct 2) [iv 3 1; NSeq (ct 4) []]) ]).
 Proof. vm_compute. repeat split. Qed.
 
 (* {m1: 1, base: &m1 {x: 1}, u: {z: 3 + merged x}}: key m1 is spelled like the anchor of the mapping `base`;
@@ -135,63 +136,63 @@ Example C04_merge_test_nonvacuous :
 Proof. vm_compute. repeat split. Qed.
 
 Example C04_root_nonvacuous :
-  del_order [CNode (mkpc None PNone) false] = [mkpc None PNone].
-Proof. reflexivity. Qed.
+  In None (map pc_parent (leaf_coords [CNode (mkpc None PNone) false])) /\
+  delete_nodes [CNode (mkpc None PNone) false] doc1 = Failed doc1 (YPE NoDocument).
+Proof. vm_compute. auto. Qed.
 
-(* ---- known finding F15: the unguarded statement is false ----
-   `(a[0])+(a[0])` on {a: [1, 2, 3]}: both coordinates designate a[0], the
-   spec removes one node, the loop removes two. *)
+(* ---- former known finding F15, repaired by fix 17f9ea8: the witnesses of the
+   former C04_delete_exact_refuted now satisfy the full theorem ----
+   `(a[0])+(a[0])` on {a: [1, 2, 3]}: both coordinates designate a[0]; ONE node is removed
+   (the old loop removed two and left [3]). *)
 Definition doc2 : node := NMap (ct 0) [ (sk 1 "a", NSeq (ct 2) [iv 3 1; iv 4 2; iv 5 3]) ].
 Definition dup_coords : list coord :=
   [CList [plain 2 (PInt 0); plain 2 (PInt 0)] (mkpc None PNone) false].
 
-Theorem C04_delete_exact_refuted : exists d cs,
-  wf_doc d /\
-  delete_nodes cs d <> MDone (delete_spec d (map pc_pair (del_order cs))).
-Proof.
-  exists doc2, dup_coords. split.
-  - apply wf_docb_sound. vm_compute. reflexivity.
-  - vm_compute. discriminate.
-Qed.
-Print Assumptions C04_delete_exact_refuted.
+Example C04_duplicate_repaired :
+  wf_docb doc2 = true /\
+  del_all_located doc2 (map pc_pair (leaf_coords dup_coords)) = true /\
+  del_plan doc2 dup_coords = [mkpc (Some 2%N) (PInt 0)] /\
+  delete_nodes dup_coords doc2 = MDone (NMap (ct 0) [ (sk 1 "a", NSeq (ct 2) [iv 4 2; iv 5 3]) ]) /\
+  delete_spec doc2 (map pc_pair (leaf_coords dup_coords)) = NMap (ct 0) [ (sk 1 "a", NSeq (ct 2) [iv 4 2; iv 5 3]) ].
+Proof. vm_compute. repeat split. Qed.
 
-(* `(a[2])+(a[0])` on {a: [1, 2, 3, 4]}: removes 1 and 4 instead of 1 and 3 *)
+(* `(a[2])+(a[0])` on {a: [1, 2, 3, 4]}: removes 1 and 3 (the old loop removed 1 and 4) *)
 Definition doc3 : node := NMap (ct 0) [ (sk 1 "a", NSeq (ct 2) [iv 3 1; iv 4 2; iv 5 3; iv 6 4]) ].
-Example C04_disorder_witness :
+Example C04_disorder_repaired :
+  del_plan doc3 [CList [plain 2 (PInt 2); plain 2 (PInt 0)] (mkpc None PNone) false]
+  = [mkpc (Some 2%N) (PInt 2); mkpc (Some 2%N) (PInt 0)] /\
   delete_nodes [CList [plain 2 (PInt 2); plain 2 (PInt 0)] (mkpc None PNone) false] doc3
-  = MDone (NMap (ct 0) [ (sk 1 "a", NSeq (ct 2) [iv 4 2; iv 5 3]) ]).
-Proof. vm_compute. reflexivity. Qed.
+  = MDone (NMap (ct 0) [ (sk 1 "a", NSeq (ct 2) [iv 4 2; iv 6 4]) ]).
+Proof. vm_compute. repeat split. Qed.
 
-(* known finding F_rootmix: `(b)+(/)`-style gathers delete b before refusing the root *)
-Theorem C04_root_mixed_refuted : exists d cs d',
-  In None (map pc_parent (del_order cs)) /\
-  delete_nodes cs d = Failed d' (YPE NoDocument) /\ d' <> d.
-Proof.
-  exists doc1, [CList [CNode (mkpc None PNone) false; plain 0 (PStr "b")] (mkpc None PNone) false].
-  eexists. split; [|split].
-  - vm_compute. auto.
-  - vm_compute. reflexivity.
-  - discriminate.
-Qed.
-Print Assumptions C04_root_mixed_refuted.
+(* former known finding F15b, repaired by fix 1c243db: `(/)+(b)` and `(b)+(/)` gathers are refused with the
+   document unchanged (the old loop deleted b before refusing: the former C04_root_mixed_refuted witness) *)
+Example C04_root_mixed_repaired :
+  In None (map pc_parent (leaf_coords [CList [CNode (mkpc None PNone) false; plain 0 (PStr "b")] (mkpc None PNone) false])) /\
+  delete_nodes [CList [CNode (mkpc None PNone) false; plain 0 (PStr "b")] (mkpc None PNone) false] doc1
+  = Failed doc1 (YPE NoDocument) /\
+  delete_nodes [CList [plain 0 (PStr "b"); plain 2 (PInt 0); CNode (mkpc None PNone) false] (mkpc None PNone) false] doc1
+  = Failed doc1 (YPE NoDocument).
+Proof. vm_compute. auto. Qed.
 
 (* ======================================================================== *)
 (* END TO END: the coordinates are the ones the read-side model gathers.
    [gathered p d] = parent identity and parentref of every result of the
    required query of Model/Eval.v (Proofs/EvalDelete.v: coord_of).  Whenever
-   those coordinates are in document order within each parent, each node once
-   (computable on the query's own answer; the harness evaluates it on the real
-   NodeCoords), deleting at the path removes exactly the gathered nodes. *)
+   each of those coordinates locates a node (computable on the query's own
+   answer; the harness evaluates it on the real NodeCoords; C02's subject),
+   deleting at the path removes exactly the gathered nodes - in whatever order
+   and however often the query yielded them. *)
 From YP Require Import PathParser Eval EvalDelete.
 
-Theorem C04_delete_exact_end_to_end_partial :
+Theorem C04_delete_exact_end_to_end :
   forall lit re_search nstr vstr kw_handler creator p d,
     wf_doc d ->
-    doc_ordered d (map pc_pair (gathered lit re_search nstr vstr kw_handler creator p d)) = true ->
+    del_all_located d (map pc_pair (gathered lit re_search nstr vstr kw_handler creator p d)) = true ->
     delete_nodes (map (fun c => CNode c false) (gathered lit re_search nstr vstr kw_handler creator p d)) d
     = MDone (delete_spec d (map pc_pair (gathered lit re_search nstr vstr kw_handler creator p d))).
 Proof. exact delete_gathered_exact. Qed.
-Print Assumptions C04_delete_exact_end_to_end_partial.
+Print Assumptions C04_delete_exact_end_to_end.
 
 Definition e2e_lit (s : string) : outcome litres := Ok LFail.
 Definition e2e_re (_ _ : string) : outcome reres := Ok (RMatch false).
@@ -203,27 +204,26 @@ Definition e2e_gathered (text : string) (d : node) : list (option N * pyval) :=
   | _ => []
   end.
 
-(* non-vacuity: a.* and a[1:3] style gathers on doc1 = {a: [1, [], 1, x], b: 5} *)
+(* non-vacuity: a.*, ** and a search on doc1 = {a: [1, [], 1, x], b: 5} *)
 Example C04_end_to_end_nonvacuous :
   e2e_gathered "a.*" doc1 = [(Some 2%N, PInt 0); (Some 2%N, PInt 1); (Some 2%N, PInt 2); (Some 2%N, PInt 3)] /\
-  doc_ordered doc1 (e2e_gathered "a.*" doc1) = true /\
-  doc_ordered doc1 (e2e_gathered "**" doc1) = true /\
-  doc_ordered doc1 (e2e_gathered "a[.=1]" doc1) = true.
+  del_all_located doc1 (e2e_gathered "a.*" doc1) = true /\
+  del_all_located doc1 (e2e_gathered "**" doc1) = true /\
+  del_all_located doc1 (e2e_gathered "a[.=1]" doc1) = true.
 Proof. vm_compute. repeat split. Qed.
 
-(* the guard is not implied by the fragment: a deep traversal followed by a
-   search on `.` meets a scalar twice -- as the child of the hash whose KEY
-   matches and as the scalar whose VALUE matches ({a: aa}, **[.^a]) -- and can
-   meet two children of one hash against document order ({a: b, b: zz},
-   **[.=b]: first zz under key b, then b under key a).  The documented meaning
-   (Spec/SpecC01.v) enumerates them the same way; the delete loop tolerates it
-   for hashes, so this is a limit of the guard, not a defect. *)
+(* queries of the fragment DO yield a node twice or against document order: a
+   deep traversal followed by a search on `.` meets a scalar twice -- as the
+   child of the hash whose KEY matches and as the scalar whose VALUE matches
+   ({a: aa}, **[.^a]) -- and can meet two children of one hash against
+   document order ({a: b, b: zz}, **[.=b]: first zz under key b, then b under
+   key a).  Such answers were outside the former guard doc_ordered; they are
+   inside the hypothesis of the full theorem (every coordinate locates a node). *)
 Definition doc_dup : node := NMap (ct 0) [ (sk 1 "a", sk 2 "aa") ].
 Definition doc_rev : node := NMap (ct 0) [ (sk 1 "a", sk 2 "b"); (sk 2 "b", sk 3 "zz") ].
-Definition e2e_lit_str (s : string) : outcome litres := Ok LFail.
-Theorem C01_results_doc_ordered_refuted :
+Example C04_end_to_end_dup_and_disorder :
   e2e_gathered "**[.^a]" doc_dup = [(Some 0%N, PStr "a"); (Some 0%N, PStr "a")] /\
-  doc_ordered doc_dup (e2e_gathered "**[.^a]" doc_dup) = false /\
+  del_all_located doc_dup (e2e_gathered "**[.^a]" doc_dup) = true /\
   e2e_gathered "**[.=b]" doc_rev = [(Some 0%N, PStr "b"); (Some 0%N, PStr "a")] /\
-  doc_ordered doc_rev (e2e_gathered "**[.=b]" doc_rev) = false.
+  del_all_located doc_rev (e2e_gathered "**[.=b]" doc_rev) = true.
 Proof. vm_compute. repeat split. Qed.
